@@ -136,7 +136,6 @@ package service
 
 //@ func NewShadowsocksStreamAuthenticator
 //@   props C18
-//@   requires ciphers != nil
 
 //@ func ensureConnectionError
 //@   props C18
@@ -174,6 +173,10 @@ package service
 //@ func (*streamHandler).Handle
 //@   props C06 C15 C18
 //@   requires validStreamHandler(h) && ctx != nil && clientConn != nil
+
+//@ func StreamListener.Addr
+//@   abstract
+//@   ensures result != nil
 
 //@ func StreamServe.accept
 //@   abstract
@@ -253,7 +256,6 @@ package service
 
 //@ func NewPacketHandler
 //@   props C05 C18
-//@   requires cipherList != nil
 
 //@ func (*packetHandler).validatePacket
 //@   props C03 C05 C18
@@ -474,6 +476,7 @@ package service
 //@   props C12 C13 C18 C19
 //@   acquires-level 20
 //@   requires m != nil
+//@   ensures result.1 == nil ==> result.0 != nil
 //@ func (*listenerManager).ListenStream$1
 //@   props C12 C13 C18 C19
 //@   acquires-level 20
@@ -482,6 +485,7 @@ package service
 //@   props C12 C13 C18 C19
 //@   acquires-level 20
 //@   requires m != nil
+//@   ensures result.1 == nil ==> result.0 != nil
 //@ func (*listenerManager).ListenPacket$1
 //@   props C12 C13 C18 C19
 //@   acquires-level 20
@@ -489,3 +493,24 @@ package service
 //@ func NewListenerManager
 //@   props C18
 //@   ensures result != nil
+
+// ---------------------------------------------------------------------------
+// Service construction (C09, C18)
+// ---------------------------------------------------------------------------
+
+//@ func Option
+//@   abstract
+//@   params s
+//@ func NewShadowsocksService
+//@   props C09 C18
+//@   requires forall i int :: 0 <= i && i < len(opts) ==> opts[i] != nil
+//@   ensures result.0 != nil && result.1 == nil
+//@ func NewCipherList
+//@   props C18
+//@   ensures result != nil
+//@ func (*ssService).HandleStream
+//@   props C15 C18
+//@   requires s != nil && s.sh != nil && conn != nil
+//@ func (*ssService).HandlePacket
+//@   props C18
+//@   requires s != nil && s.ph != nil
